@@ -4,9 +4,39 @@ package cbor
 
 import (
 	"bytes"
+	"io"
 
 	"github.com/WICG/webpackage/go/internal/vh"
 )
+
+// c12Source wraps the input in one of the reader kinds the repository uses with the decoder: *bytes.Reader,
+// *bytes.Buffer (bundle reader), or a reader that delivers one byte per call; remaining() reports unread bytes.
+type c12OneByte struct{ b []byte }
+
+func (r *c12OneByte) Read(p []byte) (int, error) {
+	if len(r.b) == 0 {
+		return 0, io.EOF
+	}
+	if len(p) == 0 {
+		return 0, nil
+	}
+	p[0] = r.b[0]
+	r.b = r.b[1:]
+	return 1, nil
+}
+
+func c12Source(in []byte) (io.Reader, func() int) {
+	switch vh.Choose(3) {
+	case 1:
+		b := bytes.NewBuffer(in)
+		return b, b.Len
+	case 2:
+		o := &c12OneByte{b: in}
+		return o, func() int { return len(o.b) }
+	}
+	r := bytes.NewReader(in)
+	return r, r.Len
+}
 
 func c12MaxLen() int {
 	if vh.Tier() == 0 {
@@ -15,7 +45,7 @@ func c12MaxLen() int {
 	return 12
 }
 
-// VH_C10_C12_DecodeHead: DecodeUint / DecodeArrayHeader / DecodeMapHeader on a bytes.Reader over L fully
+// VH_C10_C12_DecodeHead: DecodeUint / DecodeArrayHeader / DecodeMapHeader on a *bytes.Reader / *bytes.Buffer / one-byte-at-a-time reader over L fully
 // symbolic bytes, L = 0..10 (quick) / 0..12 (thorough): success iff the input starts with a complete
 // definite head (additional info 0..27) of the requested major type; value = RFC 8949 argument;
 // exactly the head's bytes are consumed.
@@ -23,7 +53,7 @@ func VH_C10_C12_DecodeHead() {
 	vh.MustReach("accept", "reject")
 	L := vh.Choose(c12MaxLen() + 1)
 	in := vh.Bytes("in", L)
-	r := bytes.NewReader(in)
+	r, remaining := c12Source(in)
 	d := NewDecoder(r)
 	var n uint64
 	var err error
@@ -46,7 +76,7 @@ func VH_C10_C12_DecodeHead() {
 	if err == nil && wellFormed {
 		vh.Reach("accept")
 		vh.Assert(n == arg, "value is the RFC 8949 argument")
-		vh.Assert(len(in)-r.Len() == used, "consumes exactly the head")
+		vh.Assert(len(in)-remaining() == used, "consumes exactly the head")
 	} else {
 		vh.Reach("reject")
 	}
@@ -74,7 +104,7 @@ func VH_C10_C12_DecodeString() {
 	if text && L >= 9 {
 		vh.Assume(in[0]&31 == 27)
 	}
-	r := bytes.NewReader(in)
+	r, remaining := c12Source(in)
 	d := NewDecoder(r)
 	var got []byte
 	var err error
@@ -102,7 +132,7 @@ func VH_C10_C12_DecodeString() {
 	if err == nil && wellFormed {
 		vh.Reach("accept")
 		vh.Assert(bytes.Equal(got, in[used:used+int(arg)]), "content is exactly the declared bytes")
-		vh.Assert(len(in)-r.Len() == used+int(arg), "consumes exactly head and content")
+		vh.Assert(len(in)-remaining() == used+int(arg), "consumes exactly head and content")
 	} else if !headOK {
 		vh.Reach("reject-head")
 	} else if !fits {
